@@ -39,3 +39,37 @@ Example C03_ex_high_byte_any_alignment :
   parse_request (bs "GET /?a" ++ [x80]) = Err EStatus /\
   parse_request (bs "GET /?a" ++ [x80] ++ bs " HTTP/1.1" ++ [x0d;x0a;x0d;x0a]) = Err EStatus.
 Proof. split; vm_compute; reflexivity. Qed.
+
+(* The client side: what `Response::parse` accepts, and where it says the body starts, is bracketed from both sides by an
+   independent status-head grammar (Spec/StatusGrammar.v), as C02 / C04 do for requests.  Together with accept-stability above:
+   the position where a response body starts is the end of the literal head, for every segmentation. *)
+From KV Require Import Spec.HttpGrammar Spec.StatusGrammar Proofs.ResponseSound Proofs.ResponseComplete.
+
+Theorem C03_response_sound : forall s r, parse_response s = Ok r ->
+  exists sh, strict_status_head s = Some (sh, r_offset r) /\
+    r_version r = (if ss_minor sh then 1 else 0)%N /\ r_code r = ss_code sh /\
+    r_reason r = ss_reason sh /\ r_hdrs r = headers_of (sfield_pairs (ss_fields sh)).
+Proof. exact response_sound. Qed.
+Print Assumptions C03_response_sound.
+
+Theorem C03_response_exact : forall s sh n, strict_status_head s = Some (sh, n) ->
+  firstn n s = bs "HTTP/1." ++ [if ss_minor sh then x31 else x30] ++ [x20] ++ code_digits (ss_code sh) ++ [x20] ++
+               ss_reason sh ++ [x0d; x0a] ++
+               flat_map (fun f => s_name f ++ [x3a] ++ s_raw f ++ [x0d; x0a]) (ss_fields sh) ++ [x0d; x0a]
+  /\ n <= length s /\ (ss_code sh < 1000)%N /\ forallb is_reason_char (ss_reason sh) = true.
+Proof. exact strict_status_exact. Qed.
+Print Assumptions C03_response_exact.
+
+Theorem C03_response_complete : forall h t,
+  rfc_status_head h = true -> cl_consistent (status_field_pairs h) = true ->
+  exists r, parse_response (render_status h ++ t) = Ok r /\
+    r_version r = (if t_minor h then 1 else 0)%N /\ r_code r = status_code h /\ r_reason r = t_reason h /\
+    r_hdrs r = headers_of (status_field_pairs h) /\ r_offset r = length (render_status h).
+Proof. exact response_complete. Qed.
+Print Assumptions C03_response_complete.
+
+Theorem C03_response_bad_length_rejected : forall h t,
+  rfc_status_head h = true -> cl_consistent (status_field_pairs h) = false ->
+  parse_response (render_status h ++ t) = Err EHeader.
+Proof. exact response_cl_inconsistent_rejected. Qed.
+Print Assumptions C03_response_bad_length_rejected.
